@@ -122,14 +122,22 @@ def partner (pts : List P3) (p : P3) : Option Nat :=
   let j := pts.findIdx (fun p' => (p.add p').mod N == (0, 0, 0))
   if j < pts.length then some j else none
 
+/-- index of the partner of point `i` -/
+def partnerIdx (pts : List P3) (i : Nat) : Option Nat := partner pts (pts.getD i (0, 0, 0))
+
+/-- the list `ii`: points with `q = −q + G` -/
+def catII (pts : List P3) : List Nat :=
+  (List.range pts.length).filterMap fun i => if partnerIdx pts i == some i then some i else none
+
+/-- the list `ij`: first members of the pairs `q ≠ −q + G` -/
+def catIJ (pts : List P3) : List Nat :=
+  (List.range pts.length).filterMap fun i => match partnerIdx pts i with
+    | some j => if i < j then some i else none
+    | none => none
+
 /-- `categorize_commensurate_points`; the final `assert` is the error branch. -/
 def categorize (pts : List P3) : Option (List Nat × List Nat) :=
-  let tags := (List.range pts.length).map fun i => (i, partner pts (pts.getD i (0, 0, 0)))
-  let ii := tags.filterMap fun t => if t.2 == some t.1 then some t.1 else none
-  let ij := tags.filterMap fun t => match t.2 with
-    | some j => if t.1 < j then some t.1 else none
-    | none => none
-  if ii.length + ij.length * 2 == pts.length then some (ii, ij) else none
+  if (catII pts).length + (catIJ pts).length * 2 == pts.length then some (catII pts, catIJ pts) else none
 
 /-! ### complex numbers as pairs -/
 
